@@ -24,8 +24,11 @@ package main
 //   md <r>        the same on the first non-empty container directly inside result r             ok | na
 //   ad <r>        (hset r zzN<r>: 424242): a key is added to decoded hash r                      ok | na
 //   sh <r>        canonical form of result r as it is now                                         <canon> | na
+//   mv <ip> <i>   the ORIGINAL value i of interpreter ip is mutated in place (first element := 424242):
+//                 a later encode of it sees the new value, the results kept so far the old one   ok | na
 //
-// Values are built afresh, inside the interpreter that encodes them, for every encode step.
+// Each interpreter builds its own object for value i, once per history; every encode step of that
+// interpreter encodes that same object (gj / gm: interpreter 0).
 
 import (
 	"bytes"
@@ -217,6 +220,20 @@ func jsonHistExec(toks []string) string {
 	var slots []*histSlot
 	var results []*histRes
 	var out []string
+	var built [2][]zygo.Sexp
+	valueOf := func(ip, i int) (zygo.Sexp, bool) {
+		if built[ip] == nil {
+			built[ip] = make([]zygo.Sexp, nv)
+		}
+		if built[ip][i] == nil {
+			v, ok := histBuild(ip, vals[i])
+			if !ok {
+				return nil, false
+			}
+			built[ip][i] = v
+		}
+		return built[ip][i], true
+	}
 	intArg := func(k int) (int, bool) {
 		if k >= len(rest) {
 			return 0, false
@@ -236,7 +253,7 @@ func jsonHistExec(toks []string) string {
 			rest = rest[3:]
 			s := &histSlot{kind: code}
 			slots = append(slots, s)
-			v, ok := histBuild(a, vals[i])
+			v, ok := valueOf(a, i)
 			if !ok {
 				return "bad-op"
 			}
@@ -265,7 +282,7 @@ func jsonHistExec(toks []string) string {
 			rest = rest[2:]
 			s := &histSlot{kind: code}
 			slots = append(slots, s)
-			v, ok := histBuild(0, vals[a])
+			v, ok := valueOf(0, a)
 			if !ok {
 				return "bad-op"
 			}
@@ -286,6 +303,27 @@ func jsonHistExec(toks []string) string {
 			s.snap = append([]byte(nil), by...)
 			if code == "gj" {
 				s.first = histDecodeCanon(code, s.snap, histEnv(0))
+			}
+			out = append(out, "ok")
+		case "mv":
+			i, okI := intArg(2)
+			if !okA || !okI || a > 1 || i >= nv {
+				return "bad-op"
+			}
+			rest = rest[3:]
+			v, ok := valueOf(a, i)
+			if !ok {
+				return "bad-op"
+			}
+			script := histSetFirst("zv", v)
+			if script == "" {
+				out = append(out, "na")
+				continue
+			}
+			histEnv(a).AddGlobal("zv", v)
+			if _, err := histEval(a, script); err != nil {
+				out = append(out, "err")
+				continue
 			}
 			out = append(out, "ok")
 		case "d":
